@@ -443,3 +443,16 @@ package aggregate
 //@   assert@call f#* : fltCalls == 0 && $arg0 == ctx && $arg1 === n && $arg2 == a && len($arg3) == 0
 //@   ghost@call f#* : fltCalls = fltCalls + 1
 //@   assert@return#* : fltCalls == 1
+
+// a new exponential-histogram point: sizes, scale and flags as given, count 0; min is initialised from the "largest" and max from
+// the "smallest" candidate. NOT decided: that these candidates are MaxInt64 / MinInt64 for int64 - the code derives them from
+// int64(math.MaxFloat64), an out-of-range float-to-integer conversion whose result Go leaves to the implementation; the engine's
+// mathematical integers (`overflow assumed`) say nothing about it (seed C07g, which turns the initial max into -MaxInt64, is
+// therefore NOT detected - recorded in DESIGN.md)
+//@ func newExpoHistogramDataPoint(attrs attribute.Set, maxSize int, maxScale int32, noMinMax bool, noSum bool) (p *expoHistogramDataPoint[$N])
+//@   prop C07
+//@   instances int64; float64
+//@   overflow assumed
+//@   ensures p != nil && p.maxSize == maxSize && p.scale == maxScale && p.noMinMax == noMinMax && p.noSum == noSum && p.count == 0
+//@   assert@store min#1 : $val === ma
+//@   assert@store max#1 : $val === mi
